@@ -26,6 +26,12 @@ func checkMapContract(n datamodel.Node, neverKeys []string) (pairs int, err erro
 		return 0, fmt.Errorf("kind %s", n.Kind())
 	}
 	yielded := map[string][]cid.Cid{}
+	type kept struct {
+		k, v datamodel.Node
+		ks   string
+		c    cid.Cid
+	}
+	var retained []kept
 	it := n.MapIterator()
 	budget := int(n.Length())*2 + 20
 	for !it.Done() {
@@ -46,6 +52,18 @@ func checkMapContract(n datamodel.Node, neverKeys []string) (pairs int, err erro
 			return pairs, fmt.Errorf("value of %q: %v", ks, err)
 		}
 		yielded[ks] = append(yielded[ks], c)
+		retained = append(retained, kept{k, v, ks, c})
+	}
+	// nodes handed out by the iterator are values: they must still read the same after the iteration moved on
+	for i, r := range retained {
+		ks, err := r.k.AsString()
+		if err != nil || ks != r.ks {
+			return pairs, fmt.Errorf("key #%d yielded as %q reads %q (err %v) after the iteration moved on", i, r.ks, ks, err)
+		}
+		c, err := linkOf(r.v)
+		if err != nil || c != r.c {
+			return pairs, fmt.Errorf("value #%d (key %q) yielded as %s reads %s (err %v) after the iteration moved on", i, r.ks, r.c, c, err)
+		}
 	}
 	if int64(pairs) != n.Length() {
 		return pairs, fmt.Errorf("iteration yielded %d pairs, Length() = %d", pairs, n.Length())
@@ -151,6 +169,9 @@ func TestC15_P_LinkLists(t *testing.T) {
 	ev := newEvid(t, c15Rule)
 	rapid.Check(t, func(t *rapid.T) {
 		nl := rapid.IntRange(0, 12).Draw(t, "nlinks")
+		if rapid.IntRange(0, 5).Draw(t, "long") == 0 {
+			nl = rapid.IntRange(13, 70).Draw(t, "nlinksLong") // long lists: lookups must not assume a small or sorted list
+		}
 		type lk struct {
 			name *string
 			c    cid.Cid
@@ -170,6 +191,9 @@ func TestC15_P_LinkLists(t *testing.T) {
 				pattern += "e"
 			default:
 				s := rapid.SampledFrom([]string{"a", "b", "a", "c", "zz", "Links", "Data", "0", "é", "\xff", "b"}).Draw(t, "name")
+				if nl > 12 && rapid.IntRange(0, 3).Draw(t, "uniq") > 0 {
+					s = fmt.Sprintf("k%02d", rapid.IntRange(0, 99).Draw(t, "knum"))
+				}
 				l.name = &s
 				if seen[s] {
 					dupOrNameless = true
